@@ -112,6 +112,13 @@ def _shape_programs() -> dict[str, dict[str, Any]]:
     add("dim_poly_in_shape_and_value", lambda x: jnp.ones((x.shape[0] * x.shape[0] + 2 * x.shape[0],), x.dtype).sum() + dimv(x, 2 * x.shape[0]), [("B", 3)])
     add("dim_poly_square_of_sum", lambda a, b: dimv(a, (a.shape[0] + b.shape[0]) ** 2 - 2 * (a.shape[0] + b.shape[0])) + b.sum() * 0.0, [("B", 3), ("N", 3)])
     add("dim_poly_floordiv_of_square", lambda x: dimv(x, (x.shape[0] * x.shape[0]) // 2 + (2 * x.shape[0]) // 2 + (x.shape[0] * x.shape[0]) % 3), [("B", 3)])
+    # a statically sized piece (slice, constant) broadcast against a symbolic extent
+    add("broadcast_sliced_vector_to_symbolic_rows", lambda x, w: x + jnp.broadcast_to(w[0:3], (x.shape[0], 3)), [("B", 3), (5,)])
+    add("mul_broadcast_sliced_vector_like_x", lambda x, v: x * jnp.broadcast_to(v[1:4], x.shape), [("B", 3), (6,)])
+    add("broadcast_sliced_matrix_rows", lambda x, m: x[:, None, :] + jnp.broadcast_to(m[1:3], (x.shape[0], 2, 3)), [("B", 3), (4, 3)])
+    add("sliced_vector_outer_symbolic", lambda x, w: x[:, :1] * w[2:5][None, :] + x, [("B", 3), (7,)])
+    add("concat_sliced_const_rows_with_symbolic", lambda x, m: jnp.concatenate([x, m[0:2]], axis=0) * 2.0, [("B", 3), (4, 3)])
+    add("dynamic_slice_then_broadcast", lambda x, w: x - jnp.broadcast_to(lax.dynamic_slice(w, (1,), (3,)), (x.shape[0], 3)), [("B", 3), (5,)])
     add("three_symbols", lambda a, b, c: a[:, None, None] * b[None, :, None] + c[None, None, :], [("B",), ("N",), ("M",)])
     add("reshape_pair_B4_4N", lambda a, b: (a.reshape(4, -1).sum(1) + b.reshape(-1, 4).sum(0)), [("B", 4), (4, "N")])
     return P
